@@ -8,6 +8,7 @@ import SplVerif.Lemmas.Total
 import SplVerif.Lemmas.Shift
 import SplVerif.Lemmas.FreshEnd
 import SplVerif.Lemmas.ParseClean
+import SplVerif.Lemmas.Resync
 
 namespace Spl.C05
 
@@ -183,6 +184,58 @@ theorem following_declarations_as_before (A : List Token) (progA : Program) (hA 
 section
 open Spl Spl.Parse Spl.ParseConform Spl.FreshEnd
 
+
+/-- a declaration that starts with doc comments and a keyword fails in front of the end-of-file token -/
+theorem doctk_fails_at_eof {α} (ctx : Ctx) (k : Kind) (hk : (Kind.Eof == k) = false) (rest : List (List Char) → P α)
+    (s : St) (i : Nat) (t : Token) (hN : Next ctx.toks s.pos i) (ht : ctx.toks[i]? = some t) (hty : t.ty = .Eof) :
+    IsErr (Parse.bind (docComments ctx) (fun doc => Parse.bind (tk ctx k) (fun _ => rest doc)) s) := by
+  have hdoc := docComments_run ctx (i - s.pos) s i rfl hN
+  have hkc : t.kind ≠ .Comment := by simp [Token.kind, hty, TokenType.kind]
+  have he := tk_here ctx { s with pos := i } t k ht hkc
+  have hkk : (t.ty.kind == k) = false := by simpa [hty, TokenType.kind] using hk
+  rw [hkk] at he
+  simp only [Bool.false_eq_true, if_false] at he
+  exact ⟨false, { s with pos := i }, by simp [Parse.bind, hdoc, he]⟩
+
+/-- at the end-of-file token the declaration loop stops: no further declaration -/
+theorem loop_at_eof (ctx : Ctx) (s : St) (i : Nat) (hat : At ctx s [⟨i, .Eof⟩]) (f : Nat) :
+    many0 (refParse (parseGlobalDecl ctx) none) (f + 1) s = .ok s [] := by
+  obtain ⟨hN, ⟨t, ht, hty⟩, _, _⟩ := hat.head
+  have href := hat.ref
+  -- the state the declaration parser runs in
+  let s1 : St := { s with refPos := s.pos }
+  have hN1 : Next ctx.toks ({ s1 with errBuf := [] } : St).pos i := hN
+  have e1 : IsErr (pmap GlobalDecl.type (parseTypeDecl ctx none) s1) := by
+    apply pmap_err
+    show IsErr (pmap _ (info (typeDeclInner ctx none none)) s1)
+    apply pmap_err
+    apply info_err _ _ _ (Nat.le_refl _)
+    unfold typeDeclInner
+    exact doctk_fails_at_eof ctx .Type (by decide) _ _ i t hN1 ht hty
+  have e2 : IsErr (pmap GlobalDecl.proc (parseProcDecl ctx none) s1) := by
+    apply pmap_err
+    show IsErr (pmap _ (info (procDeclInner ctx none)) s1)
+    apply pmap_err
+    apply info_err _ _ _ (Nat.le_refl _)
+    rw [Total.procDeclInner_eq]
+    exact doctk_fails_at_eof ctx .Proc (by decide) _ _ i t hN1 ht hty
+  have e3 : IsErr (info (ignoreUntil1 ctx (peek (la ctx .global_dec)) (loopFuel ctx)) s1) := by
+    apply info_err _ _ _ (Nat.le_refl _)
+    have hla := (la_global_next ctx { s1 with errBuf := [] } i t hN1 ht).1 (by simp [isSync, hty, TokenType.kind])
+    exact ⟨false, { s1 with errBuf := [] }, by simp [ignoreUntil1, peek, hla]⟩
+  have hall : IsErr (parseGlobalDecl ctx none s1) := by
+    show IsErr (altList [pmap GlobalDecl.type (parseTypeDecl ctx none), pmap GlobalDecl.proc (parseProcDecl ctx none), pmap _ _] s1)
+    rw [altList_cons_err _ _ _ (by simp) e1, altList_cons_err _ _ _ (by simp) e2]
+    simp only [altList]
+    exact pmap_err _ _ _ e3
+  obtain ⟨k, x, hx⟩ := hall
+  have hr : refParse (parseGlobalDecl ctx) none s = .err k { x with refPos := s.refPos, incRefs := x.incRefs.dropLast } := by
+    have a1 : ¬ s.pos < s.refPos := by omega
+    simp only [refParse, Option.map_none, a1, if_false]
+    have : parseGlobalDecl ctx none { s with refPos := s.pos } = .err k x := hx
+    rw [this]
+  rw [many0_succ, hr]
+
 /-- the first token of a derived declaration list, behind its documentation comments, is a declaration keyword -/
 theorem decls_head_keyword (ctx : Ctx) (fd : Nat) (ts : Grammar.Toks) (d : Ref GlobalDecl) (ds : List (Ref GlobalDecl))
     (last : Option Nat) (hs : Grammar.decls (G ctx) fd ts = some (d :: ds, last)) (s : St) (hat : At ctx s ts) :
@@ -202,8 +255,8 @@ theorem decls_head_keyword (ctx : Ctx) (fd : Nat) (ts : Grammar.Toks) (d : Ref G
     `C04.parse_conforms`); `d0 :: post` are its declarations from some declaration `d0` on.  `B` is ANY token sequence
     that, from a position `eB` directly behind a token, goes on exactly like `A` from the start of `d0` (the doc
     comments in front of its keyword) — in front of `eB` stands whatever the damage made of the earlier declarations.
-    Then every program `parser::parse` returns for `B` contains, one behind the other, exactly the declarations
-    `d0 :: post` of the undamaged program: identical sub-trees — every node, range, inner `Reference` offset and doc
+    Then every program `parser::parse` returns for `B` ENDS with exactly the declarations `d0 :: post` of the
+    undamaged program (nothing behind them: the loop stops at the end-of-file token, `loop_at_eof`): identical sub-trees — every node, range, inner `Reference` offset and doc
     comment, no diagnostic in them — each at its `Reference` offset moved by the difference of the two positions.
     (`keywords_start_declarations` finds the declaration that starts at the keyword of `d0`; `Lemmas/FreshEnd` shows
     that the loop's iterations start directly behind a token, so that declaration starts at `eB` and not inside the
@@ -212,8 +265,8 @@ theorem declarations_behind_damage_as_before (A B : List Token) (progA progB : P
     (hA : Grammar.parseAbs A = some progA) (hB : Parse.parse B = .ok progB)
     (pre post : List (Ref GlobalDecl)) (d0 : Ref GlobalDecl) (hsp : progA.decls = pre ++ d0 :: post)
     (eB : Nat) (hsuf : B.drop eB = A.drop d0.val.info.range.lo) (hfB : Fresh B.toArray eB) :
-    ∃ preB restB, progB.decls = preB ++
-      ((d0 :: post).map Grammar.relDecl).map (fun r => ⟨r.val, r.offset - d0.val.info.range.lo + eB⟩) ++ restB := by
+    ∃ preB, progB.decls = preB ++
+      ((d0 :: post).map Grammar.relDecl).map (fun r => ⟨r.val, r.offset - d0.val.info.range.lo + eB⟩) := by
   -- the undamaged derivation, cut in front of `d0`
   simp only [Grammar.parseAbs] at hA
   split at hA
@@ -309,17 +362,26 @@ theorem declarations_behind_damage_as_before (A B : List Token) (progA progB : P
         -- from there the loop returns the undamaged sub-trees
         have hsuf' : ctxB.toks.toList.drop si.pos = A.toArray.toList.drop e := by
           rw [hpos]; simpa using hsuf
-        obtain ⟨endB, ieof, _, _, hres⟩ :=
+        obtain ⟨endB, ieof, _, hatEnd, hres⟩ :=
           Shift.tail_as_before A.toArray e fd' (d0 :: post) last' hd' hatE.fresh ctxB si hsuf' hfr hrp fi
         have hbig := many0_mono' _ fi si sE (p.decls.drop i) hsi (d0 :: post).length
         rw [hres] at hbig
         cases hrest : many0 (refParse (parseGlobalDecl ctxB) none) fi { si with pos := endB } with
         | ok sX rest =>
+          -- behind them stands the end-of-file token: the loop stops
+          have hnil : rest = [] := by
+            cases fi with
+            | zero => simp [many0] at hrest
+            | succ f =>
+              rw [loop_at_eof ctxB _ ieof hatEnd f] at hrest
+              simp only [Res.ok.injEq] at hrest
+              exact hrest.2.symm
+          subst hnil
           rw [hrest] at hbig
-          simp only [prependRes, Res.ok.injEq] at hbig
-          refine ⟨p.decls.take i, rest, ?_⟩
+          simp only [prependRes, Res.ok.injEq, List.append_nil] at hbig
+          refine ⟨p.decls.take i, ?_⟩
           rw [hpos] at hbig
-          rw [List.append_assoc, hbig.2]
+          rw [hbig.2]
           exact (List.take_append_drop i p.decls).symm
         | err k x => rw [hrest] at hbig; simp [prependRes] at hbig
         | panic e => rw [hrest] at hbig; simp [prependRes] at hbig
@@ -331,17 +393,16 @@ theorem refErrors_nil {α} (errs : α → List SplError) (r : Ref α) (h : refEr
 /-- **The syntax diagnostics of the damaged program lie outside the declarations behind the damage.**  In the setting of
     `declarations_behind_damage_as_before`: the copies of the undamaged declarations carry no diagnostic, so every
     diagnostic of the parse is attached to the program node or to a declaration node in front of them (the damaged
-    declaration and what the recovery made of it) or behind them. -/
+    declaration and what the recovery made of it). -/
 theorem diagnostics_outside_undamaged_declarations (A B : List Token) (progA progB : Program)
     (hA : Grammar.parseAbs A = some progA) (hB : Parse.parse B = .ok progB)
     (pre post : List (Ref GlobalDecl)) (d0 : Ref GlobalDecl) (hsp : progA.decls = pre ++ d0 :: post)
     (eB : Nat) (hsuf : B.drop eB = A.drop d0.val.info.range.lo) (hfB : Fresh B.toArray eB) :
-    ∃ preB restB, progB.decls = preB ++
-      ((d0 :: post).map Grammar.relDecl).map (fun r => ⟨r.val, r.offset - d0.val.info.range.lo + eB⟩) ++ restB ∧
-      progB.errors = progB.info.errors ++ preB.flatMap (refErrors GlobalDecl.errors) ++
-        restB.flatMap (refErrors GlobalDecl.errors) := by
-  obtain ⟨preB, restB, hd⟩ := declarations_behind_damage_as_before A B progA progB hA hB pre post d0 hsp eB hsuf hfB
-  refine ⟨preB, restB, hd, ?_⟩
+    ∃ preB, progB.decls = preB ++
+      ((d0 :: post).map Grammar.relDecl).map (fun r => ⟨r.val, r.offset - d0.val.info.range.lo + eB⟩) ∧
+      progB.errors = progB.info.errors ++ preB.flatMap (refErrors GlobalDecl.errors) := by
+  obtain ⟨preB, hd⟩ := declarations_behind_damage_as_before A B progA progB hA hB pre post d0 hsp eB hsuf hfB
+  refine ⟨preB, hd, ?_⟩
   -- the undamaged derivation carries no diagnostic
   have hclean : ∀ x ∈ d0 :: post, refErrors GlobalDecl.errors (Grammar.relDecl x) = [] := by
     simp only [Grammar.parseAbs] at hA
